@@ -66,14 +66,31 @@ public:
 	inline int ApplyOperation(const int& x, const int& y, const int& z) { return op3(o, x, y, z); }
 };
 
+// "vmap": the W logical variables of a history are the physical variables vmap[0] < vmap[1] < ... (indices beyond 16 bits
+// included); every other physical variable is don't care.  Empty = identity.
+std::vector<size_t> g_vmap;
+size_t phys(size_t i) { return g_vmap.empty() ? i : g_vmap.at(i); }
+
 SymbolicVarAsgn mkAsgn(const json& a)
 {
-	SymbolicVarAsgn res(a.size());
+	size_t len = (g_vmap.empty() || a.size() == 0) ? a.size() : g_vmap.at(a.size() - 1) + 1;
+	SymbolicVarAsgn res(len);
+	for (size_t i = 0; i < len; ++i) { res.SetIthVariableValue(i, SymbolicVarAsgn::DONT_CARE); }
 	for (size_t i = 0; i < a.size(); ++i)
 	{
 		int v = a.at(i).get<int>();
-		res.SetIthVariableValue(i, v == 0 ? SymbolicVarAsgn::ZERO : (v == 1 ? SymbolicVarAsgn::ONE : SymbolicVarAsgn::DONT_CARE));
+		res.SetIthVariableValue(phys(i), v == 0 ? SymbolicVarAsgn::ZERO : (v == 1 ? SymbolicVarAsgn::ONE : SymbolicVarAsgn::DONT_CARE));
 	}
+	return res;
+}
+
+// the total assignment number n over the W logical variables
+SymbolicVarAsgn totalAsgn(size_t W, size_t n)
+{
+	if (g_vmap.empty()) { return SymbolicVarAsgn(W, n); }
+	SymbolicVarAsgn res(g_vmap.at(W - 1) + 1);
+	for (size_t i = 0; i < res.length(); ++i) { res.SetIthVariableValue(i, SymbolicVarAsgn::ZERO); }
+	for (size_t i = 0; i < W; ++i) { res.SetIthVariableValue(g_vmap[i], ((n >> i) & 1) ? SymbolicVarAsgn::ONE : SymbolicVarAsgn::ZERO); }
 	return res;
 }
 
@@ -82,6 +99,8 @@ SymbolicVarAsgn mkAsgn(const json& a)
 VDRIVE_OP(mtbdd)
 {
 	size_t W = c.value("W", 4u);
+	g_vmap.clear();
+	if (c.contains("vmap")) { for (const json& v : c["vmap"]) { g_vmap.push_back(v.get<size_t>()); } }
 	std::unique_ptr<MTBDD> h[NH];
 	json out = json::array();
 	json res;
@@ -135,7 +154,7 @@ VDRIVE_OP(mtbdd)
 		{
 			int j = st.at(2).get<int>();
 			std::set<size_t> vars;
-			for (const json& v : st.at(3)) { vars.insert(v.get<size_t>()); }
+			for (const json& v : st.at(3)) { vars.insert(phys(v.get<size_t>())); }
 			F2 fresh; std::string o = st.at(4).get<std::string>();
 			F2& f = reuse ? pf2["project:" + o] : fresh; f.o = o;
 			ev["j"] = j; ev["vars"] = st.at(3); ev["f"] = f.o;
@@ -170,7 +189,7 @@ VDRIVE_OP(mtbdd)
 			json tab = json::array();
 			for (size_t n = 0; n < (static_cast<size_t>(1) << W); ++n)
 			{
-				tab.push_back(h[x]->GetValue(SymbolicVarAsgn(W, n)));
+				tab.push_back(h[x]->GetValue(totalAsgn(W, n)));
 			}
 			json hv;
 			hv["tab"] = tab;
